@@ -10,7 +10,15 @@ functions of the hand-written model `Lg.LObj` (Model/LegacyFull.lean) - for EVER
   `py_pair_table_eq`, `py_get_paired_loc_eq`    the views with their lazily filled caches = the model's views
   `py_every_state`             every state of the translated object is `ofL` of a model object (the statements quantify over all states)
 
-No hypothesis is needed: where the model is total and Python raises (`tmpstruct[i] = ")"` with `i` out of range) the raise is
+  `py_loop_index_eq`, `py_get_loop_index_eq`, `py_is_connected_eq`   the loop-index views (with the `try … except
+                               SecondaryStructureError: return False` of `is_connected`) = the model's, for every object whose
+                               cached pair table - if truthy - is a table `make_pair_table` returns (`PtOk`).  `PtOk` holds for new
+                               objects and is kept by every modelled method (`ptOk_new`, `ptOk_rotateOnce`, `ptOk_size`, …), so it
+                               holds along every op sequence (`py_ptOk_run`); WITHOUT it the statement is false
+                               (`py_loop_index_needs_ptOk`: on an arbitrary cached table the source's `make_loop_index` and the
+                               model's totalised one differ).
+
+For the other methods no hypothesis is needed: where the model is total and Python raises (`tmpstruct[i] = ")"` with `i` out of range) the raise is
 unreachable (`bracketLoop_lt`: a bracket loop only stacks indices it has read).  A locus is a pair of non-negative ints (typing).
 
 Transferred from Props/C20Full.lean (now statements about the code as written):
@@ -26,6 +34,7 @@ Transferred from Props/C20Full.lean (now statements about the code as written):
                                      current API's answers for the turned representation
 -/
 import DsdVerif.Lemmas.PyLegacyRotate
+import DsdVerif.Lemmas.PyLegacyLoop
 import DsdVerif.Props.C20Full
 import DsdVerif.Props.C20FullViews
 import DsdVerif.Props.PyFuncs
@@ -60,6 +69,61 @@ theorem py_pair_table_eq (o : LObj) : (py_DSD_Complex_pair_table).exec (ofL o) =
 theorem py_get_paired_loc_eq (o : LObj) (loc : Locus) :
     (py_DSD_Complex_get_paired_loc loc).exec (ofL o) = exAns (o.getPairedLoc ((loc.1 : Int), (loc.2 : Int))) :=
   exec_get_paired_loc o loc
+
+/-! ### the loop-index views, under the invariant `PtOk` -/
+
+theorem py_loop_index_eq (o : LObj) (h : PtOk o) : (py_DSD_Complex_loop_index).exec (ofL o) = exAns o.loopIndexView :=
+  exec_loop_index o h
+
+theorem py_get_loop_index_eq (o : LObj) (h : PtOk o) (loc : Locus) :
+    (py_DSD_Complex_get_loop_index loc).exec (ofL o) = exAns (o.getLoopIndex loc) := exec_get_loop_index o h loc
+
+theorem py_is_connected_eq (o : LObj) (h : PtOk o) : (py_DSD_Complex_is_connected).exec (ofL o) = exAns o.isConnected :=
+  exec_is_connected o h
+
+/-- the ops of the model whose translations are proved above -/
+inductive Op
+  | rot | size | strandLength (k : Nat) | getDomain (l : Locus) | getPairedLoc (l : Locus) | loopIndex | getLoopIndex (l : Locus)
+  | isConnected
+
+def Op.run (o : LObj) : Op → LObj
+  | .rot => o.rotateOnce.1
+  | .size => o.size.1
+  | .strandLength k => (o.strandLength k).1
+  | .getDomain l => (o.getDomain l).1
+  | .getPairedLoc l => (o.getPairedLoc ((l.1 : Int), (l.2 : Int))).1
+  | .loopIndex => o.loopIndexView.1
+  | .getLoopIndex l => (o.getLoopIndex l).1
+  | .isConnected => o.isConnected.1
+
+/-- `PtOk` holds after every sequence of these ops on a new object (so the hypothesis of the three theorems above is met along
+    every history the stream plays) -/
+theorem py_ptOk_run (id : Nat) (name : String) (seq : List String) (sst : List Char) (mc : Bool) (ops : List Op) :
+    PtOk (ops.foldl Op.run { id := id, name := name, seq := seq, sst := sst, memorycheck := mc }) := by
+  suffices ∀ (ops : List Op) (o : LObj), PtOk o → PtOk (ops.foldl Op.run o) from this ops _ (ptOk_new id name seq sst mc)
+  intro ops
+  induction ops with
+  | nil => intro o h; exact h
+  | cons op ops ih =>
+    intro o h
+    refine ih _ ?_
+    cases op
+    · exact ptOk_rotateOnce o h
+    · exact ptOk_size o h
+    · exact ptOk_strandLength o h _
+    · exact ptOk_getDomain o h _
+    · exact ptOk_getPairedLoc o h _
+    · exact ptOk_loopIndexView o h
+    · exact ptOk_getLoopIndex o h _
+    · exact ptOk_isConnected o h
+
+/-- the hypothesis cannot be dropped: with a cached table that no `make_pair_table` call returns (position 1 paired with the
+    EARLIER position 0, which is unpaired: a closing bracket without its opening one) the source's `make_loop_index` pops its
+    empty stack (IndexError) where the totalised hand model answers `([[0, 0]], [0])` -/
+theorem py_loop_index_needs_ptOk :
+    ∃ o : LObj, (py_DSD_Complex_loop_index).exec (ofL o) ≠ exAns o.loopIndexView := by
+  refine ⟨{ id := 0, name := "", seq := ["a"], sst := ['.'], pairTable := some [[none, some (0, 0)]] }, ?_⟩
+  decide
 
 /-- what `__init__` assigns is the model's new instance -/
 theorem py_init_eq (id : Nat) (name : String) (seq : List String) (sst : List Char) (mc : Bool) :
@@ -142,6 +206,11 @@ theorem py_strand_length_after_rotate_once (o : LObj) (h : o.seq.length = o.sst.
 #print axioms py_get_domain_eq
 #print axioms py_pair_table_eq
 #print axioms py_get_paired_loc_eq
+#print axioms py_loop_index_eq
+#print axioms py_get_loop_index_eq
+#print axioms py_is_connected_eq
+#print axioms py_ptOk_run
+#print axioms py_loop_index_needs_ptOk
 #print axioms py_legacy_rotate_once_obj
 #print axioms py_legacy_rotate_once_eq_current
 #print axioms py_legacy_rotate_once_raises
